@@ -41,12 +41,16 @@ def take_snapshot(bld, tag, args, timeout=120):
     """run the native harness: writes <dir>/<tag>.bin/.meta (+ .out reference) and returns (Snapshot, roots, prefix)"""
     prefix = os.path.join(bld['dir'], 'snap-' + tag)
     if not os.path.exists(prefix + '.meta'):
-        tmp = prefix + '.p%d' % os.getpid()
-        r = subprocess.run([bld['exe'], 'snap', tmp] + [str(a) for a in args], capture_output=True, text=True, timeout=timeout)
-        if r.returncode != 0:
-            raise RuntimeError('harness snap failed (%s %s): rc=%d %s %s' % (bld['exe'], args, r.returncode, r.stdout[-2000:], r.stderr[-2000:]))
-        for ext in ('.bin', '.out', '.meta'):
-            if os.path.exists(tmp + ext): os.replace(tmp + ext, prefix + ext)
+        import fcntl
+        with open(prefix + '.lock', 'w') as lk:
+            fcntl.flock(lk, fcntl.LOCK_EX)       # one producer per snapshot: native runs are not bit-reproducible (std::random_device)
+            if not os.path.exists(prefix + '.meta'):
+                tmp = prefix + '.p%d' % os.getpid()
+                r = subprocess.run([bld['exe'], 'snap', tmp] + [str(a) for a in args], capture_output=True, text=True, timeout=timeout)
+                if r.returncode != 0:
+                    raise RuntimeError('harness snap failed (%s %s): rc=%d %s %s' % (bld['exe'], args, r.returncode, r.stdout[-2000:], r.stderr[-2000:]))
+                for ext in ('.bin', '.out', '.meta'):
+                    if os.path.exists(tmp + ext): os.replace(tmp + ext, prefix + ext)
     snap, roots = load_snapshot(prefix, bld['exe'])
     return snap, roots, prefix
 
